@@ -354,6 +354,14 @@ pub fn replay_objective(case: &Value, rep: &mut Report, rng: &mut Rng) {
     let rt: Vec<f32> = (0..n).map(|_| if prob { 0.02 + 0.96 * rng.unit() } else { rng.unit() * 6.0 - 3.0 }).collect();
     let rp: Vec<f32> = (0..n).map(|_| if prob { 0.02 + 0.96 * rng.unit() } else { rng.unit() * 6.0 - 3.0 }).collect();
     check_objective(case, &rt, &rp, "random-smooth", rep, &id);
+    // regression objectives: predictions closer to the target than the machine epsilon, yet different
+    if !prob {
+        let nt: Vec<f32> = (0..n).map(|_| (rng.unit() - 0.5) / 8.0).collect();
+        let np: Vec<f32> = nt.iter().enumerate().map(|(i, t)| t + if i % 2 == 0 { 2.0f32.powi(-25) } else { -(2.0f32.powi(-26)) }).collect();
+        if nt.iter().zip(np.iter()).all(|(a, b)| a != b) {
+            check_objective(case, &nt, &np, "random-near", rep, &id);
+        }
+    }
 }
 
 // ------------------------------------------------------------------------------------------------
